@@ -22,6 +22,7 @@ func init() {
 		},
 		Assumptions: commonAssumptions,
 		Engines:     "MIRROR, ROLE, TABLE, PATH, GUARD",
+		TagMatrix:   [][]string{{"integration"}},
 		Run:         runC17,
 	})
 }
